@@ -62,6 +62,8 @@ type interpreter struct {
 	funcsSeen map[*ssa.Function]int64 // function -> instructions executed (evidence)
 	depth     int
 	stubSeen  map[string]bool
+	pure      map[*ssa.Function]bool
+	noMerge   bool
 	lockDepth int
 	clock     int64
 	strCellOf map[*value]string
@@ -125,7 +127,7 @@ func unsupported(msg string) unsupportedErr   { return unsupportedErr{msg} }
 func boundExceeded(msg string) boundErr        { return boundErr{msg} }
 func isControl(p any) bool {
 	switch p.(type) {
-	case pathEnd, unsupportedErr, boundErr:
+	case pathEnd, unsupportedErr, boundErr, localFail:
 		return true
 	}
 	return false
@@ -587,6 +589,11 @@ func (i *interpreter) call(caller *frame, callpos token.Pos, fn value, args []va
 		if fn == nil {
 			panic(rtPanic("invalid memory address or nil pointer dereference (call of nil func)"))
 		}
+		if i.ex.local == nil && !i.noMerge && hasSym(args) && i.isPure(fn) {
+			if v, ok := i.summarize(caller, callpos, fn, args); ok {
+				return v
+			}
+		}
 		return i.callSSA(caller, callpos, fn, args, nil)
 	case *closure:
 		return i.callSSA(caller, callpos, fn.Fn, args, fn.Env)
@@ -733,7 +740,7 @@ func (fr *frame) runFrame() {
 			// interpreter fault (or Go run-time error inside the interpreter): report as engine
 			// error, never as a target panic
 			if _, isRt := p.(engineFault); !isRt {
-				p = engineFault{msg: fmt.Sprint(p), where: fr.fn.String() + loc(fr.i.prog.Fset, fr.curPos())}
+				p = engineFault{msg: fmt.Sprint(p), where: fr.fn.String() + loc(fr.i.prog.Fset, fr.curPos()) + fr.stack()}
 			}
 			panic(p)
 		}
@@ -843,4 +850,15 @@ func (i *interpreter) runtimeErrorValue(msg string) value {
 		return iface{t: i.runtimeErrorT, v: "runtime error: " + msg}
 	}
 	return iface{t: types.Typ[types.String], v: "runtime error: " + msg}
+}
+
+func (fr *frame) stack() string {
+	var sb strings.Builder
+	n := 0
+	for f := fr.caller; f != nil && n < 12; f = f.caller {
+		sb.WriteString(" <- ")
+		sb.WriteString(f.fn.String())
+		n++
+	}
+	return sb.String()
 }
